@@ -632,6 +632,9 @@ register(PropertySpec(
         Rule("OPDEN", opden.rule_opden, 8,
              "mirroring a comparison (5 < x reaches x.__gt__(5) and denotes x > 5) and contains(c, i) vs in_(i, c) "
              "have the same denotation"),
+        Rule("OR-LEFT-TOTAL", _lazy("logic", "rule_or_left_total"), 1,
+             "swapping the operands of or_: the right operand is tried for every binding on which the left one is not true, "
+             "also those for which the left operand yields no row"),
         Rule("CACHE-FLAG-CONSISTENT", _lazy("cacheidx", "rule_cache_flag_consistent"), 5,
              "(shared with C05) which rows a cache replays as true must not depend on the row order (operand / domain order)"),
         Rule("VALUE-TRUTH", _lazy("values", "rule_value_truth"), 10,
